@@ -1109,6 +1109,12 @@ void reb_integrator_whfast_part2(struct reb_simulation* const r){
         // Skipping rest of integration to avoid out of bounds memory access.
         return;
     }
+    if (reb_integrator_whfast_init(r)){
+        // reb_integrator_whfast_init refused this step in part1 (invalid combination of settings; the error has been
+        // raised there and is raised again here): p_jh does not hold the coordinates of this step, it may even be
+        // all zeros. A refused step must not touch the particles or the time.
+        return;
+    }
     
     switch (ri_whfast->kernel){
         case REB_WHFAST_KERNEL_DEFAULT: 
